@@ -229,6 +229,23 @@ def check_var_ess(ctx):
             ctx.fail_input(case2, 'compute_ess = %s, (sum w)^2/sum w^2 = %s' % (e, expe), str(expe), str(e))
         reqs.append(dict(op='C13.ess', w=case2['w']))
         meta.append(('ess', case2, e))
+        # the same statistic on machine numbers: weights on extreme scales (likelihood-type weights exp(-400), unnormalised
+        # counts) and integer-typed weights whose squares leave the dtype's range - ESS does not depend on the scale
+        wi = [rng.choice([0, 1, 1, 2, 3, 7]) for _ in range(n)]
+        if sum(wi) > 0:
+            exp_ess = F(sum(wi)) ** 2 / F(sum(v * v for v in wi))
+            variants = [('float64 x 1e-170', np.array(wi, dtype=float) * 1e-170), ('float64 x 1e170', np.array(wi, dtype=float) * 1e170),
+                        ('int32 x 50000', np.array(wi, dtype=np.int32) * np.int32(50000)), ('int64 x 4e9', np.array(wi, dtype=np.int64) * np.int64(4 * 10**9))]
+            name, arr = variants[len(meta) % 4]
+            ctx.count('ess.machine_numbers', name)
+            with np.errstate(all='ignore'):
+                try:
+                    got_ess = float(compute_ess(arr))
+                except Exception as ex:                       # noqa
+                    got_ess = 'raised %s' % type(ex).__name__
+            if not (isinstance(got_ess, float) and math.isclose(got_ess, float(exp_ess), rel_tol=1e-9)):
+                ctx.fail_input(dict(fn='compute_ess', w=arr.tolist(), dtype=str(arr.dtype), machine=True),
+                               'compute_ess of %s weights = %r, (sum w)^2/sum w^2 = %r' % (name, got_ess, float(exp_ess)), float(exp_ess), got_ess)
     # negative weights are rejected
     for w in ([F(1), F(-1), F(3)], [F(-2)]):
         case2 = dict(fn='compute_ess', w=[q2j(v) for v in w])
